@@ -226,6 +226,10 @@ fn transition(
     findings: &mut Vec<Finding>,
 ) -> (OpOut, Vec<u8>) {
     *WATCH.lock().unwrap() = Some((Instant::now(), hex(pre), op.text()));
+    if let Ok(j) = std::env::var("VERIF_JOURNAL") {
+        // journal the operation before executing it, so that an abort (Miri, a crash) is attributable
+        let _ = std::fs::write(j, format!("state x{}\n{}\n", hex(pre), op.text()));
+    }
     let mut a = ABuf::new_skewed(pre, salt % 3, 0xA5, sut.skew());
     let out_a = sut.apply(&mut a, op);
     let post_a = a.bytes().to_vec();
